@@ -66,11 +66,13 @@ type tcase struct {
 	Inflate  int                    `json:"inflate"`
 	Frag     []int                  `json:"frag"`
 	ReadLim  int                    `json:"readlimit"`
+	Splice   bool                   `json:"splice"` // C12: a ping travels between the fragments of every fragmented message
 }
 
 type memConn struct {
 	mu     sync.Mutex
 	out    []byte
+	lens   []int // length of every Write (the library writes one frame per Write)
 	closed bool
 }
 
@@ -81,6 +83,7 @@ func (m *memConn) Write(b []byte) (int, error) {
 		return 0, net.ErrClosed
 	}
 	m.out = append(m.out, b...)
+	m.lens = append(m.lens, len(b))
 	return len(b), nil
 }
 func (m *memConn) take() []byte {
@@ -89,6 +92,13 @@ func (m *memConn) take() []byte {
 	b := m.out
 	m.out = nil
 	return b
+}
+func (m *memConn) takeLens() []int {
+	m.mu.Lock()
+	defer m.mu.Unlock()
+	l := m.lens
+	m.lens = nil
+	return l
 }
 func (m *memConn) isClosed() bool                     { m.mu.Lock(); defer m.mu.Unlock(); return m.closed }
 func (m *memConn) Read(b []byte) (int, error)         { return 0, io.EOF }
@@ -420,8 +430,28 @@ func runC12(c *tcase, trk *tracker) {
 			perr = true
 		}
 	}
+	lens := smem.takeLens()
 	wire = smem.take()
-	if c.Focus == "C12" {
+	if c.Splice {
+		// RFC 6455 5.4 allows control frames in the middle of a fragmented message (the library's sender never does it,
+		// another implementation may): a ping is inserted behind every frame that is not the last of its message
+		var w2 []byte
+		off := 0
+		for _, n := range lens {
+			if off+n > len(wire) {
+				break
+			}
+			fr := wire[off : off+n]
+			w2 = append(w2, fr...)
+			if n > 0 && fr[0]&0x80 == 0 {
+				w2 = append(w2, encodeFrame(true, 0, 9, []byte("sp"), c.Client, rnd)...)
+			}
+			off += n
+		}
+		w2 = append(w2, wire[off:]...)
+		wire = w2
+	}
+	if c.Focus == "C12" && !c.Splice {
 		fs, ok := decodeFrames(wire)
 		for _, f := range fs {
 			tr.Emit(hlib.Ev{"ev": "frame", "fin": f.fin, "rsv1": f.rsv1, "rsv2": f.rsv2, "rsv3": f.rsv3, "opcode": f.op,
